@@ -133,18 +133,6 @@ pub mod math {
 
     #[cfg(feature = "std")]
     #[inline]
-    pub fn round(x: f64) -> f64 {
-        x.round()
-    }
-
-    #[cfg(not(feature = "std"))]
-    #[inline]
-    pub fn round(x: f64) -> f64 {
-        libm::round(x)
-    }
-
-    #[cfg(feature = "std")]
-    #[inline]
     pub fn trunc(x: f64) -> f64 {
         x.trunc()
     }
